@@ -54,7 +54,27 @@ def gv(args, timeout=3600, release=False):
         return {"raw": p.stdout[-500:]}
 
 
+def _mem_available_gb():
+    try:
+        with open("/proc/meminfo") as f:
+            for line in f:
+                if line.startswith("MemAvailable:"):
+                    return int(line.split()[1]) / (1 << 20)
+    except Exception:
+        pass
+    return 1e9
+
+
+def _wait_for_memory(need_gb, patience=900):
+    """Several JVMs are started in parallel (16 trace shards, possibly several checks at once on the
+    same machine, no swap): wait until the heap about to be claimed is actually available."""
+    t = time.time()
+    while _mem_available_gb() < need_gb + 3 and time.time() - t < patience:
+        time.sleep(1.5 + (os.getpid() % 7) * 0.1)
+
+
 def _java(extra_env, args, timeout, xmx="3g", cwd=SPEC):
+    _wait_for_memory(float(xmx[:-1]) if xmx.endswith("g") else 1.0)
     env = dict(os.environ)
     env["JAVA_TOOL_OPTIONS"] = "-Xss1g -Dtlc2.tool.queue.IStateQueue=StateDeque"
     env.update(extra_env)
@@ -75,9 +95,18 @@ def tlc_trace(module, cfg, trace, tag, timeout=1800):
     """Validates one trace file. Returns dict(accepted, line, ev, states, generated, out)."""
     meta = os.path.join(OUT, "tlc", tag)
     shutil.rmtree(meta, ignore_errors=True)
+    # heap by trace size (the whole trace is deserialised into TLA+ values); retried with the full
+    # heap if the small one turns out not to be enough
+    size = os.path.getsize(trace) if os.path.exists(trace) else 0
+    xmx = "1g" if size < (3 << 20) else ("2g" if size < (24 << 20) else "3g")
     rc, out = _java({"TRACE": os.path.abspath(trace)},
                     ["-workers", "1", "-metadir", meta, "-cleanup", "-noGenerateSpecTE",
-                     "-config", cfg, module + ".tla"], timeout)
+                     "-config", cfg, module + ".tla"], timeout, xmx=xmx)
+    if xmx != "3g" and ("OutOfMemoryError" in out or "GC overhead" in out or "Java heap space" in out):
+        shutil.rmtree(meta, ignore_errors=True)
+        rc, out = _java({"TRACE": os.path.abspath(trace)},
+                        ["-workers", "1", "-metadir", meta, "-cleanup", "-noGenerateSpecTE",
+                         "-config", cfg, module + ".tla"], timeout, xmx="3g")
     shutil.rmtree(meta, ignore_errors=True)
     m = _STATS.search(out)
     gen, dist = (int(m.group(1)), int(m.group(2))) if m else (0, 0)
